@@ -26,10 +26,9 @@ import (
 	"flag"
 	"fmt"
 	"os"
-	"reflect"
 	"sort"
 	"strings"
-	"sync"
+	"sync/atomic"
 	"time"
 
 	"verif/harness/vh"
@@ -84,14 +83,19 @@ func main() {
 	only := replayFilter(env)
 	fams := allFamilies()
 
-	sweep(env, rep, only)
+	startDeadline(env, rep)
+	facts := loadFacts(env, rep)
+	sweep(env, rep, only, facts)
 	if only == nil {
+		blockingQueues(env, rep)
 		sequential(env, rep, rng.Fork(), fams)
 		lockstep(env, rep, fams)
+		oracleLockstep(env, rep, facts)
+		growthAndRemovers(env, rep)
 		stress(env, rep, rng.Fork(), fams)
 		race(env, rep)
 	}
-	rep.Write(env.Out)
+	finish(env, rep)
 }
 
 // replayFilter: `-replay FILE` re-runs the sweep for the (type, method) named by the replay's key.
@@ -115,102 +119,6 @@ func replayFilter(env *vh.Env) map[string]bool {
 }
 
 // ---------------------------------------------------------------- 1 sweep
-
-type sweepRes struct {
-	typ, m  string
-	empty   bool
-	out     vh.Outcome
-	ret     string
-	after   vh.Outcome // Size() after the call
-	skipped bool
-}
-
-func sweep(env *vh.Env, rep *vh.Report, only map[string]bool) {
-	watchdog := 2 * time.Second
-	var mu sync.Mutex
-	var res []sweepRes
-	var wg sync.WaitGroup
-	for _, c := range ctors {
-		names := methodNames(c.mk())
-		for _, m := range names {
-			if only != nil && !only[c.name+"."+m] {
-				continue
-			}
-			for _, empty := range []bool{false, true} {
-				if blocksByDesign(c.name, m, empty) {
-					continue
-				}
-				wg.Add(1)
-				go func(c ctor, m string, empty bool) {
-					defer wg.Done()
-					obj := c.mk()
-					if !empty {
-						populate(obj)
-					}
-					meth := reflect.ValueOf(obj).MethodByName(m)
-					args, ok := buildArgs(obj, meth.Type(), 1, c.mk)
-					r := sweepRes{typ: c.name, m: m, empty: empty}
-					if !ok {
-						r.skipped = true
-					} else {
-						r.out = vh.GuardTimeout(watchdog, func() { r.ret = canon(meth.Call(args)) })
-						if !r.out.Timeout {
-							sz := reflect.ValueOf(obj).MethodByName("Size")
-							r.after = vh.GuardTimeout(watchdog, func() { sz.Call(nil) })
-						}
-					}
-					mu.Lock()
-					res = append(res, r)
-					mu.Unlock()
-				}(c, m, empty)
-			}
-		}
-	}
-	wg.Wait()
-	sort.Slice(res, func(i, j int) bool {
-		a, b := res[i], res[j]
-		if a.typ != b.typ {
-			return a.typ < b.typ
-		}
-		if a.m != b.m {
-			return a.m < b.m
-		}
-		return !a.empty && b.empty
-	})
-	for _, r := range res {
-		inst := "populated"
-		if r.empty {
-			inst = "empty"
-		}
-		canonText := fmt.Sprintf("sweep %s.%s %s", r.typ, r.m, inst)
-		if r.skipped {
-			rep.Count("sweep:skipped-unbuildable-args")
-			if r.empty || (r.typ == "LinkedList" && entityAPI[r.m]) {
-				continue // GetNext/Remove/PutBefore on an empty list have no entity to pass
-			}
-			rep.Fail("correspondence", r.typ+"."+r.m+":unreachable", "the harness cannot build arguments for this method; extend harness/c10/reflectutil.go", canonText)
-			continue
-		}
-		rep.Case(canonText, true)
-		rep.Count("sweep:" + r.out.String())
-		replay := map[string]interface{}{"type": r.typ, "method": r.m, "instance": inst,
-			"how": "construct the type, " + map[bool]string{false: "insert keys 1..3, ", true: ""}[r.empty] + "call the method once under a 2 s watchdog"}
-		switch {
-		case r.out.Timeout:
-			rep.Fail("property", r.typ+"."+r.m+":deadlock",
-				fmt.Sprintf("%s.%s on a %s instance did not return within %v: it blocks on the instance's own lock", r.typ, r.m, inst, watchdog), replay)
-		case r.out.Panic != "" && !r.empty:
-			replay["panic"] = vh.Clip(r.out.Panic, 200)
-			rep.Fail("property", r.typ+"."+r.m+":panic",
-				fmt.Sprintf("%s.%s on a populated instance panics: %s", r.typ, r.m, vh.Clip(r.out.Panic, 120)), replay)
-		}
-		if !r.out.Timeout && !r.after.OK() {
-			rep.Fail("property", r.typ+"."+r.m+":lock-left-held",
-				fmt.Sprintf("after %s.%s (%s) the instance no longer answers Size(): %s", r.typ, r.m, r.out, r.after), replay)
-		}
-	}
-	rep.Sample(map[string]interface{}{"sweep": "every exported method found by reflection", "calls": len(res)})
-}
 
 // ---------------------------------------------------------------- 2 sequential correspondence
 
@@ -236,11 +144,12 @@ func sequential(env *vh.Env, rep *vh.Report, rng *vh.Rng, fams []*family) {
 			mod := f.newModel()
 			changed := false
 			var ls []string
+			// the calls are drawn first; the implementation then runs them under one watchdog, so that an
+			// operation that never returns is an outcome of this history, not a stall of the harness
 			for i := 0; i < n; i++ {
 				c := f.gen(rng, f.kinds)
 				before := mod.key()
 				it.calls = append(it.calls, c)
-				it.rets = append(it.rets, tgt.apply(c))
 				it.facts = append(it.facts, mod.apply(c))
 				if mod.key() != before {
 					changed = true
@@ -248,6 +157,22 @@ func sequential(env *vh.Env, rep *vh.Report, rng *vh.Rng, fams []*family) {
 				ls = append(ls, c.lineFor(f))
 				rep.Count("seq-op:" + c.Kind)
 			}
+			rets := make([]string, 0, n)
+			var progress int32
+			o := vh.GuardTimeout(10*time.Second, func() {
+				for _, c := range it.calls {
+					rets = append(rets, tgt.apply(c))
+					atomic.AddInt32(&progress, 1)
+				}
+			})
+			if o.Timeout {
+				k := int(atomic.LoadInt32(&progress))
+				rep.Fail("property", f.typ+"."+kindMethod(it.calls[k].Kind)+":blocks-forever",
+					fmt.Sprintf("single-threaded %s: call %d %v did not return within 10 s", f.typ, k, it.calls[k]),
+					map[string]interface{}{"type": f.typ, "calls": it.calls[:k+1]})
+				break // this type hangs: its remaining histories would only wait for the watchdog
+			}
+			it.rets = rets
 			it.final = mod.key()
 			items = append(items, it)
 			line := f.drvPrefix + " " + strings.Join(ls, ";")
@@ -382,7 +307,7 @@ func runStress(thorough bool, seed uint64, fams []*family, mark func(string)) *s
 			if dead {
 				out.Fails = append(out.Fails, stressFail{f.typ, f.typ + ":stress-deadlock",
 					fmt.Sprintf("%d goroutines × %d point operations on one %s did not finish within 10 s", nG, nOps, f.typ), nil})
-				continue
+				break // the remaining rounds of this type would only wait for the watchdog
 			}
 			if overlapping(hist) {
 				out.Overlap++
